@@ -92,6 +92,26 @@ var seqNames = []string{
 	"Stop, Reset(1h,0), Reset(1h,0)",
 	"Reset(1h,0), Stop, Reset(1h,0)",
 	"Stop, Reset(small), Reset(1h,0)",
+	"Stop, Stop",
+	"Stop, Stop, Reset(small)",
+	"Stop, Reset(1h,0), Stop, Stop",
+	"fresh ticker, no firing awaited: Stop, Stop",
+}
+
+// seqGuarded runs one control call on its own goroutine; a call that never returns is decided by
+// two goroutine dumps (it is parked on the ticker's mutex for good), never by a timeout.
+func seqGuarded(f func()) (pan *vkit.Panic, v vkit.AwaitVerdict, dump string) {
+	done := make(chan struct{})
+	go func() {
+		defer close(done)
+		pan = vkit.Try(f)
+	}()
+	v, dump = vkit.Await(done, vkit.AwaitOpts{Soft: 2 * time.Second, Gap: 300 * time.Millisecond, Hard: 30 * time.Second,
+		Relevant: func(g vkit.G) bool { return g.Has("main.seqGuarded") }})
+	if v != vkit.AwaitDone {
+		return nil, v, dump // pan still belongs to the goroutine
+	}
+	return pan, v, ""
 }
 
 func seqOps(kind int, sd, sj time.Duration) []seqOp {
@@ -117,6 +137,12 @@ func seqOps(kind int, sd, sj time.Duration) []seqOp {
 		return []seqOp{S, H, H}
 	case 8:
 		return []seqOp{H, S, H}
+	case 10, 13:
+		return []seqOp{S, S}
+	case 11:
+		return []seqOp{S, S, R}
+	case 12:
+		return []seqOp{S, H, S, S}
 	}
 	return []seqOp{S, R, H}
 }
@@ -178,7 +204,10 @@ func seqCases(r *vkit.Report) {
 			k := rnd.Intn(3)    // ticks read before the firing that is aimed at
 			mode := rnd.Intn(4) // 0,1 hold at ticker.fire; 2 callback seen at ticker.fire; 3 by time
 			off := time.Duration(rnd.Range(-30, 120)) * 100
-			h.arm(k+1, mode <= 1)
+			if kind == 13 {
+				k = 0
+			}
+			h.arm(k+1, mode <= 1 && kind != 13)
 
 			var tk *xtime.JitterTicker
 			nb := time.Now()
@@ -203,6 +232,8 @@ func seqCases(r *vkit.Report) {
 			// aim
 			aim := "time"
 			switch {
+			case kind == 13:
+				aim = "none (fresh ticker)"
 			case len(ticks) < k:
 				aim = "none (ticks missing)"
 			case mode <= 2:
@@ -223,17 +254,56 @@ func seqCases(r *vkit.Report) {
 			desc := fmt.Sprintf("NewJitterTicker(%s, %s), %d tick(s) read, then at the next firing (%s): ", d, j, len(ticks), aim)
 			var pan *vkit.Panic
 			panAt, panStop := "", false
+			stuckAt, stuckDump := "", ""
+			stops := 0 // Stops in a row so far
+			call := func(op *seqOp) func() {
+				if op.stop {
+					return tk.Stop
+				}
+				return func() { tk.Reset(op.d, op.j) }
+			}
+			opName := func(op seqOp) string {
+				if op.stop {
+					return "Stop()"
+				}
+				return fmt.Sprintf("Reset(%s, %s)", op.d, op.j)
+			}
 			for oi := range ops {
 				op := &ops[oi]
 				op.b = time.Now()
-				if op.stop {
-					pan = vkit.Try(tk.Stop)
+				if stops >= 2 {
+					// the call after a double Stop: must return
+					var v vkit.AwaitVerdict
+					pan, v, stuckDump = seqGuarded(call(op))
+					if v != vkit.AwaitDone {
+						if v == vkit.AwaitStuck {
+							stuckAt = fmt.Sprintf("call %d of the sequence, %s", oi+1, opName(*op))
+						} else {
+							r.Inconclusive(fmt.Sprintf("case %s trial %d: %s after a double Stop had not returned (%s)", c.ID(), i, opName(*op), v))
+							violated = true // end the case: the ticker cannot be used any more
+						}
+						op.b = time.Time{}
+						break
+					}
+					r.Count("seq", "calls made right after a double Stop that returned", 1)
 				} else {
-					pan = vkit.Try(func() { tk.Reset(op.d, op.j) })
+					pan = vkit.Try(call(op))
 				}
 				op.e = time.Now()
+				if op.stop {
+					stops++
+				} else {
+					stops = 0
+				}
 				if pan != nil {
 					panAt, panStop = fmt.Sprintf("call %d of the sequence", oi+1), op.stop
+					if panStop {
+						// does the ticker still answer? (a Stop that panicked with the mutex held leaves every later call parked)
+						probe := seqOp{d: time.Hour}
+						if _, v, dump := seqGuarded(call(&probe)); v == vkit.AwaitStuck {
+							stuckAt, stuckDump = "Reset(1h0m0s, 0s) issued after the panic", dump
+						}
+					}
 					break
 				}
 			}
@@ -270,26 +340,51 @@ func seqCases(r *vkit.Report) {
 			r.Eval(1)
 			r.Count("seq: sequences run", seqNames[kind], 1)
 			r.Count("seq: how the sequence was aimed at the firing", aim, 1)
-			if pan != nil {
-				if panStop {
-					// A panicking Stop is recorded only.
-					r.Count("outside the statement / lenient (not judged)", "Stop in a control sequence panicked: "+pan.Msg, 1)
-				} else {
+			if kind >= 10 {
+				r.Count("seq", "sequences with a Stop on a stopped ticker", 1)
+			}
+			if pan != nil || stuckAt != "" {
+				if pan != nil {
 					witness["panic"] = pan.Msg
-					c.Violation("ticker-panic", desc+" — "+panAt+" panicked: "+pan.Msg, witness)
-					violated = true
+					sig := "ticker-panic"
+					if panStop {
+						sig = "stop-panics"
+					}
+					c.Violation(sig, desc+" — "+panAt+" panicked: "+pan.Msg, witness)
 				}
+				if stuckAt != "" {
+					w2 := map[string]any{"goroutines": stuckDump}
+					for k, v := range witness {
+						w2[k] = v
+					}
+					c.Violation("reset-stuck-after-stop", desc+" — "+stuckAt+" never returns: it is parked on the ticker's mutex in two goroutine dumps 300 ms apart", w2)
+				}
+				violated = true
 				continue // the ticker's mutex may be held for good: drop it
 			}
 			// final small regime: watch it synchronously for a few periods, then stop it
 			if !last.stop && last.d < time.Second {
 				wlim := time.Now().Add(3*(last.d+last.j) + 200*us)
-				for time.Now().Before(wlim) {
+				fresh := 0 // ticks stamped after the final Reset returned
+				if kind == 11 {
+					wlim = time.Now().Add(30 * ms) // the ticker must run again: see two ticks (bounded)
+				}
+				for time.Now().Before(wlim) && !(kind == 11 && fresh >= 2) {
 					select {
 					case T := <-tk.C:
 						ticks = append(ticks, T)
+						if T.After(last.e) {
+							fresh++
+						}
 					default:
 						runtime.Gosched()
+					}
+				}
+				if kind == 11 {
+					if fresh >= 2 {
+						r.Count("seq", "Stop, Stop, Reset(small): the ticker ticked again (>= 2 ticks)", 1)
+					} else {
+						r.Count("outside the statement / lenient (not judged)", "Stop, Stop, Reset(small): fewer than 2 ticks within 30 ms", 1)
 					}
 				}
 				vkit.Try(tk.Stop)
@@ -314,6 +409,19 @@ func seqCases(r *vkit.Report) {
 						desc, T.Sub(nb), T.Sub(last.e)), witness)
 					violated = true
 					break
+				}
+			}
+			if !violated && !last.stop {
+				for ti := 0; ti+1 < len(ticks); ti++ {
+					if ticks[ti].After(last.e) {
+						r.Eval(1)
+						if gap := ticks[ti+1].Sub(ticks[ti]); gap < last.d-last.j {
+							witness["pair"] = []int{ti, ti + 1}
+							c.Violation("tick-spacing", fmt.Sprintf("%s: two consecutive ticks stamped after the last Reset returned are only %s apart (d - jitter = %s)", desc, gap, last.d-last.j), witness)
+							violated = true
+							break
+						}
+					}
 				}
 			}
 			if violated {
